@@ -163,6 +163,12 @@ func CheckMetafile(rc *RunCtx, rec *BuildRec, label string) *Violation {
 			}
 		}
 	}
+	// segment identity: in an unminified bundle every module's code follows a
+	// "// <path>" line and is followed by a blank line and the next module's comment;
+	// the bytes attributed to the module are exactly that segment
+	if v := checkSegments(rc, rec, mf, metaOut, outBytes, viol); v != nil {
+		return v
+	}
 	// marker invariant: marker of module m in output o <=> bytesInOutput > 0
 	for _, m := range rec.Model.Mods {
 		if m.Deleted || m.Kind == "bin" {
@@ -519,4 +525,67 @@ func keysOfB(m map[string]bool) []string {
 	}
 	sort.Strings(ks)
 	return ks
+}
+
+func checkSegments(rc *RunCtx, rec *BuildRec, mf *Metafile, metaOut map[string]MetaOutput, outBytes map[string]string, viol func(class, key, f string, a ...interface{}) *Violation) *Violation {
+	if !rec.Opts.Bundle || rec.Opts.MinifyWhitespace {
+		return nil
+	}
+	for p, mo := range metaOut {
+		isJS := strings.HasSuffix(p, ".js") || strings.HasSuffix(p, ".mjs")
+		isCSS := strings.HasSuffix(p, ".css")
+		if !isJS && !isCSS {
+			continue
+		}
+		c := outBytes[p]
+		type hit struct {
+			key        string
+			start, end int // start of the comment line, end = index after its newline
+		}
+		var hits []hit
+		for k := range mo.Inputs {
+			line := "// " + k + "\n"
+			if isCSS {
+				line = "/* " + k + " */\n"
+			}
+			from := 0
+			for {
+				i := strings.Index(c[from:], line)
+				if i < 0 {
+					break
+				}
+				i += from
+				if i == 0 || c[i-1] == '\n' {
+					hits = append(hits, hit{k, i, i + len(line)})
+				}
+				from = i + len(line)
+			}
+		}
+		sort.Slice(hits, func(i, j int) bool { return hits[i].start < hits[j].start })
+		seen := map[string]int{}
+		for _, h := range hits {
+			seen[h.key]++
+		}
+		for i := 0; i+1 < len(hits); i++ {
+			h, next := hits[i], hits[i+1]
+			if seen[h.key] != 1 {
+				continue // ambiguous
+			}
+			segEnd := next.start
+			if segEnd > h.end && c[segEnd-1] == '\n' {
+				segEnd-- // the blank line that separates modules
+			}
+			seg := segEnd - h.end
+			got := mo.Inputs[h.key].BytesInOutput
+			rc.Probe("segment_checked")
+			if seg != got {
+				if debugOn {
+					rc.Probe(fmt.Sprintf("segment_delta_%d", seg-got))
+					continue
+				}
+				return viol("bytes-in-output-inexact", "", "output %s: the code of %s between its path comment and the next module's comment is %d bytes, the metafile attributes %d bytes to it", p, h.key, seg, got)
+			}
+		}
+	}
+	return nil
 }
